@@ -148,8 +148,10 @@ fn stack_case(sink: &mut Sink, idx: u64, kind: &str, prog: &Prog, specs: &[Layer
     for s in specs {
         if let LayerSpec::Capture(f) = s {
             let (dump, raws, _, _) = run_capture(prog, f);
-            if dump.is_some() && !out.panicked {
-                assert_eq!(raws, out.raws, "a fresh Registry issues the same ids for the same program");
+            // a fresh Registry issues the same ids for the same program; when it does not (a layer of the
+            // stack disabled a span for the whole subscriber, say) the judge sees it in the storages
+            if dump.is_some() && !out.panicked && raws != out.raws {
+                sink.bump("stack:raw-ids-differ-from-single-layer-run");
             }
             singles.push(dump);
         }
